@@ -94,7 +94,9 @@ func Tripped() bool {
 func Yield(site int) {
 	if shared {
 		m := sharedMeter.Add(1)
-		if c := sharedCap.Load(); c != 0 && m > c {
+		// panic at the crossing and then every 4096 statements: deferred recovery
+		// code (a few statements) can run, a runaway loop is hit again
+		if c := sharedCap.Load(); c != 0 && m > c && (m-c)%4096 == 1 {
 			sharedTripped.Store(true)
 			panic(WorkCapTrip{m})
 		}
@@ -102,7 +104,7 @@ func Yield(site int) {
 	}
 	i := meterIdx()
 	meters[i]++
-	if caps[i] != 0 && meters[i] > caps[i] {
+	if caps[i] != 0 && meters[i] > caps[i] && (meters[i]-caps[i])%4096 == 1 {
 		tripped = true
 		panic(WorkCapTrip{meters[i]})
 	}
